@@ -185,6 +185,55 @@ def run(F, tier, res):
             res.violate('RAW-STYLE', 'fn=%s' % q, 'the raw-line decision can answer None although the line\'s style is `raw` (some path to None does not test it): '
                         'such a line is then painted with delta\'s computed styles instead of keeping its input colouring', where=F.bodies[q]['mir']['span']['at'])
     res.rule('C08.RAW-STYLE', nr, 1, 'raw-line decision: partial evaluation with is_raw = true; the None result is unreachable', discharged=okr)
+    # ---------- CR-FIRST: the carriage return that git leaves between the text and a trailing colour reset is removed before the line is
+    # measured for truncation (the uncoloured form of the same line has lost its CR in the line splitter: measuring first makes the
+    # coloured line one column wider than the plain one)
+    ing = [p for p, b in F.fn_bodies.items() if b['mir']['arg_count'] == 2 and 'StateMachine' in b['mir']['locals'][1] and '[u8]' in b['mir']['locals'][2]]
+    ncr = okcr = 0
+    if not ing:
+        res.anchor_missing('ingest function (fn(&mut StateMachine, &[u8]))')
+
+    def _site_kinds(fn, depth=0):
+        """{block: kinds} for the calls of fn that search for the CR / cut the line to max_line_length (directly or in a local helper)"""
+        out = {}
+        if fn not in F.fn_bodies or depth > 2:
+            return out
+        for i, c in F.calls(fn):
+            r = callee_of(c)
+            kinds = set()
+            if r.endswith(('::rfind', '::find')) and any(v == ('char', '\r') or v == ('str', '\r') for a in c['args'] for v in F.operand_literals(fn, a)):
+                kinds.add('cr')
+            if r.endswith('::truncate_str') or (r.endswith('::truncate') and any(x[0] == 'param' and x[2] and x[2][-1] == 'raw_line' for x in F.trace(fn, c['args'][0]))):
+                kinds.add('cut')
+            q = r if r in F.fn_bodies else (c.get('resolved') or '')
+            if q in F.fn_bodies and q != fn and not q.startswith('ansi::'):
+                for ks in _site_kinds(q, depth + 1).values():
+                    kinds |= ks
+            for a in c['args']:
+                for x in F.trace(fn, a):
+                    if x[0] == 'agg' and x[1][0] == 'closure':
+                        for ks in _site_kinds(x[1][1], depth + 1).values():
+                            kinds |= ks
+            if kinds:
+                out[i] = kinds
+        return out
+    for fn in sorted(set(ing) | {q for p in ing for q in F.reachable_from([p]) if 'StateMachine' in ' '.join(F.bodies[q]['mir']['locals'][1:2])}):
+        S = F.cfg(fn)
+        sk = _site_kinds(fn)
+        cuts = [i for i, ks in sk.items() if 'cut' in ks]
+        crs = [i for i, ks in sk.items() if 'cr' in ks]
+        for t in cuts:
+            after = reach(S, S.get(t, []))
+            for s_ in crs:
+                if s_ == t:
+                    continue
+                ncr += 1
+                if s_ in after:
+                    res.violate('CR-FIRST', 'fn=%s' % fn, 'the line is cut to max-line-length before the carriage return left by git between the text and a trailing colour '
+                                'reset is removed: the coloured form of a CRLF line is measured one column wider than the uncoloured form', where=F.span_of_call(F.blocks(fn)[t]['t'][1]))
+                else:
+                    okcr += 1
+    res.rule('C08.CR-FIRST', ncr, 1, 'pairs (truncation to max_line_length, CR search) in the ingest functions: the CR search is never after the cut', discharged=okcr)
     from ._ansi import accounting_rule
     accounting_rule(F, res, 'C08')
     res.distinct.update(r['rule'] for r in res.rules)
